@@ -44,7 +44,13 @@ Record tattr := {
   ta_err : list N;
   ta_td_out : list N;     (* what its teardown actions print *)
   ta_td_err : list N;
-  ta_td_fail : bool       (* execute_teardown returns a failure *)
+  ta_td_fail : bool;      (* execute_teardown returns a failure *)
+  ta_report : bool        (* the `report` attribute (exceptions.py 51-56) of the failure object the task's OWN actions
+                             return when they fail: True for everything doit creates itself (action.py 203, 260,
+                             265, 481, 497, 509); False only when a python-action returns
+                             TaskFailed(..., report=False) / TaskError(..., report=False) (action.py 506-507
+                             hands the object on as it is; it survives pickling, so it is the same flag after
+                             crossing the result queue of MRunner) *)
 }.
 
 (* ---------------- what can be written ---------------- *)
@@ -158,6 +164,11 @@ Definition d_upd (r : rep) (k : name) (f : trec -> trec) : rep :=
 Section Reporter.
 Variable ti : name -> tattr.
 
+(* fail.report of the object handed to add_failure(task k, fail): the failures the RUNNER creates (kind >= 2:
+   UnmetDependency runner.py 136 / 175, DependencyError 144 / 182 / 210) are built with the default
+   report=True; kind 0 / 1 (TaskFailed / TaskError) is what Task.execute returned (runner.py 196) *)
+Definition fail_report (k : name) (kd : N) : bool := (2 <=? kd) || ta_report (ti k).
+
 (* TaskResult.set_result 180-187: reads action.out / action.err of the task's actions (None before execution) *)
 Definition set_result (w : world) (k : name) (res : jres) (err : option N) (v : trec) : trec :=
   let ex := mem k (w_executed w) in
@@ -170,7 +181,7 @@ Definition json_step (r : rep) (w : world) (c : call) : rep * world :=
   | CInitialize => (r, w)                                                  (* no such method: run_all checks hasattr *)
   | CGetStatus k => (set_results r (d_set k fresh (rp_results r)), w)     (* 236-238 *)
   | CExecute k => (d_upd r k start, w)                                     (* 240-242 *)
-  | CFailure k kd => (d_upd r k (set_result w k JFail (Some kd)), w)       (* 244-246 *)
+  | CFailure k kd => (d_upd r k (set_result w k JFail (Some kd)), w)       (* 244-246: fail.report is NOT read *)
   | CSuccess k => (d_upd r k (set_result w k JSuccess None), w)            (* 248-250 *)
   | CSkipUpToDate k => (d_upd r k (set_result w k JUpToDate None), w)      (* 252-254 *)
   | CSkipIgnore k => (d_upd r k (set_result w k JIgnore None), w)          (* 256-258 *)
@@ -205,8 +216,10 @@ Definition console_step (r : rep) (w : world) (c : call) : rep * world :=
   | CInitialize | CGetStatus _ | CSuccess _ | CTeardown _ | CWrite _ _ _ => (r, w)
   | CExecute k =>
       (r, if ta_actions (ti k) && negb (ta_private (ti k)) then out_write [Line (LExec k)] w else w)
-  | CFailure k kd =>       (* fail.report is True for every failure the runners create *)
-      (with_failures r (rp_failures r ++ [(k, kd)]), out_write [Line (LFail k kd)] w)
+  | CFailure k kd =>       (* 47-52: `if fail.report:` append to self.failures and _write_failure; else nothing *)
+      if fail_report k kd
+      then (with_failures r (rp_failures r ++ [(k, kd)]), out_write [Line (LFail k kd)] w)
+      else (r, w)
   | CSkipUpToDate k =>
       (r, match rp_kind r with
           | RConsole => if negb (ta_private (ti k)) then out_write [Line (LUpToDate k)] w else w
@@ -223,8 +236,10 @@ Definition zero_step (r : rep) (w : world) (c : call) : rep * world :=
   match c with
   | CCleanupError k => (r, sys_write SErr InMain (Line (LCleanupMsg k)) w)       (* inherited *)
   | CRuntimeError m => (r, sys_write SErr InMain (Line (LRuntime m)) w)          (* 146-147 *)
-  | CFailure k kd =>
-      (r, match rp_kind r with RErrorOnly => out_write [Line (LEFail k kd)] w | _ => w end)
+  | CFailure k kd =>       (* ZeroReporter: _just_pass; ErrorOnlyReporter 153-159: `if not fail_info.report: return` *)
+      (r, match rp_kind r with
+          | RErrorOnly => if fail_report k kd then out_write [Line (LEFail k kd)] w else w
+          | _ => w end)
   | _ => (r, w)
   end.
 
